@@ -53,3 +53,13 @@ def _ceil(i, args, kw, node, fr):
                 i.ctx.assume(z3.Implies(f_ == 1, r == n_))
                 return r
     raise Unsupported("math.ceil of %s" % v, node)
+
+
+@hook("getattr")
+def _scalar_methods(i, v, name, node, fr):
+    """numpy scalar methods on symbolic numbers"""
+    if is_z3(v) and v.sort() in (Int, Real, Bool, Val) and name == "item":
+        return BoundMethod(v, lambda interp, s, a, k, n, f: s)
+    if isinstance(v, (int, float)) and name == "item":
+        return BoundMethod(v, lambda interp, s, a, k, n, f: s)
+    return NotImplemented
